@@ -322,16 +322,31 @@ namespace
 
     // Both cooked and raw DIE's have parents (unless they don't, in
     // which case we are already at root).  But for cooked DIE's,
-    // when the parent is partial unit root, we need to traverse
-    // further along the import chain.
+    // when the parent is the root of a unit that was imported (a
+    // partial unit, or, since DW_AT_import may lead to any unit, a
+    // compile unit), we need to traverse further along the import
+    // chain.
+    auto is_unit_root = [] (Dwarf_Die &die)
+      {
+	switch (dwarf_tag (&die))
+	  {
+	  case DW_TAG_partial_unit:
+	  case DW_TAG_compile_unit:
+	  case DW_TAG_type_unit:
+	  case DW_TAG_skeleton_unit:
+	    return true;
+	  }
+	return false;
+      };
+
     Dwarf_Die par_die;
     do
       if (! get_parent (*a, par_die))
 	return nullptr;
     while (d == doneness::cooked
-	   // Import another partial unit if possible, and keep
-	   // looking for the actual parent.
-	   && dwarf_tag (&par_die) == DW_TAG_partial_unit
+	   // Import another unit if possible, and keep looking for
+	   // the actual parent.
+	   && is_unit_root (par_die)
 	   && a->get_import () != nullptr
 	   && (a = a->get_import ().get ()));
 
